@@ -349,6 +349,13 @@ def _options_sweep(ctx, pym, cls, dom, grid, ndof, elmat_of, base_kw, tab, bcs, 
                     # one fresh module per option point; x is then updated on its input signal (the normal use)
                     sig = pym.Signal('x', x_vector(xs[0], nel, tab))
                     m = cls(sig, domain=dom, **kw)
+                    bc_user = kw.get('bc')
+                    if bc_user is not None and len(bc_user):
+                        # the array of constrained dofs is the caller's: re-used for another dof set after construction,
+                        # the module keeps the dofs it was given (and never writes into the array)
+                        bc_user[...] = (bc_user + 1) % n
+                        bc_later = bc_user.copy()
+                    held = []     # matrices returned by earlier responses of this module: (object, dense value, x name)
                     for xname in xs:
                         if _only(case, x=xname):
                             continue
@@ -366,6 +373,13 @@ def _options_sweep(ctx, pym, cls, dom, grid, ndof, elmat_of, base_kw, tab, bcs, 
                             Scache[xname] = fe.scatter(nx, ny, nz, ndof, xv, Ke)
                         S = Scache[xname]
                         G = _compare_assembled(ctx, got, S, Cd, bc, dv, axes, cname != 'none', kind)
+                        for obj_, val_, xn_ in held:
+                            ctx.chk(exact_equal(np.asarray(dense(obj_)), val_), 'earlier_matrix_changed',
+                                    'matrix_of_an_earlier_response', axes, earlier_x=xn_)
+                        if G is not None:
+                            held.append((got, np.array(G, copy=True), xname))
+                        if bc_user is not None and len(bc_user):
+                            ctx.chk(exact_equal(bc_user, bc_later), 'argument_modified', 'bc', axes)
                         if cname == 'none':
                             ctx.tags.add(f"{mname}->{getattr(got, 'format', type(got).__name__)}")
                         if G is not None and dv is None and bc is not None and len(bc) and cname == 'none':
